@@ -2,6 +2,7 @@ package rules
 
 import (
 	"go/constant"
+	"go/token"
 	"go/types"
 	"strings"
 
@@ -193,6 +194,74 @@ func (c *Ctx) c19Composition() {
 			}
 		}
 	}
+	// the composed handler may be a method value: link{parent: srv.Session, next: fn}.handle - the two handlers are then
+	// fields of the bound receiver
+	type boundLink struct {
+		mc   *ssa.MakeClosure
+		recv ssa.Value // the struct object the fields are stored into (an allocation in the option)
+	}
+	bound := map[*ssa.Function]boundLink{}
+	for _, f := range allNested(sm) {
+		for _, b := range f.Blocks {
+			for _, in := range b.Instrs {
+				mc, ok := in.(*ssa.MakeClosure)
+				if !ok || len(mc.Bindings) != 1 {
+					continue
+				}
+				w, ok := mc.Fn.(*ssa.Function)
+				if !ok || !strings.HasSuffix(w.Name(), "$bound") || sh == nil || !types.Identical(w.Signature, sh.Underlying()) {
+					continue
+				}
+				var m *ssa.Function
+				for _, ci := range core.Calls(w) {
+					if h := core.StaticCallee(ci); h != nil && c.P.InPkg(h, "wire") && h.Signature.Recv() != nil {
+						m = h
+					}
+				}
+				if m == nil {
+					continue
+				}
+				obj := mc.Bindings[0]
+				if u, isLoad := obj.(*ssa.UnOp); isLoad && u.Op == token.MUL {
+					obj = u.X
+				}
+				if _, isAlloc := obj.(*ssa.Alloc); !isAlloc {
+					continue
+				}
+				bound[m] = boundLink{mc, obj}
+				composed = append(composed, m)
+			}
+		}
+	}
+	// a handler held in a field of the bound receiver
+	recvField := func(fn *ssa.Function, v ssa.Value) string {
+		if _, isBound := bound[fn]; !isBound || len(fn.Params) == 0 {
+			return ""
+		}
+		u, ok := v.(*ssa.UnOp)
+		if !ok || u.Op != token.MUL {
+			return ""
+		}
+		fa, ok := u.X.(*ssa.FieldAddr)
+		if !ok {
+			return ""
+		}
+		base := fa.X
+		if al, isAlloc := base.(*ssa.Alloc); isAlloc { // value receiver spilled to a local
+			for _, r := range core.Referrers(al) {
+				if st, isSt := r.(*ssa.Store); isSt && st.Addr == ssa.Value(al) {
+					base = st.Val
+				}
+			}
+		}
+		if base != ssa.Value(fn.Params[0]) {
+			return ""
+		}
+		if fr, ok := core.FieldOfAddr(fa); ok {
+			return fr.Name
+		}
+		return ""
+	}
 	R.Floor("C19.R2", "composed session handlers built by SessionMiddleware", len(composed), 1)
 	okReg := false
 	for _, fn := range composed {
@@ -204,7 +273,7 @@ func (c *Ctx) c19Composition() {
 			if !ok {
 				continue
 			}
-			if capturedVar(call.Call.Value) != nil && sh != nil && types.Identical(call.Call.Value.Type().Underlying(), sh.Underlying()) {
+			if (capturedVar(call.Call.Value) != nil || recvField(fn, call.Call.Value) != "") && sh != nil && types.Identical(call.Call.Value.Type().Underlying(), sh.Underlying()) {
 				calls = append(calls, call)
 			}
 		}
@@ -252,6 +321,51 @@ func (c *Ctx) c19Composition() {
 		why := "the first callee is not a captured variable"
 		if fv != nil && fn.Parent() != nil {
 			why = c.chainBinding(fn, fv, &prevOK, &regOK, allNested(sm))
+		}
+		if bl, isBound := bound[fn]; isBound {
+			// the field the first callee is read from holds the Server.Session value read at registration, and the method
+			// value becomes the new Server.Session
+			fld := recvField(fn, first.Call.Value)
+			why = "the field " + fld + " of the bound receiver is not assigned the current Server.Session"
+			nSt := 0
+			for _, r := range core.Referrers(bl.recv) {
+				fa, isFA := r.(*ssa.FieldAddr)
+				if !isFA {
+					continue
+				}
+				fr, ok := core.FieldOfAddr(fa)
+				if !ok || fr.Name != fld {
+					continue
+				}
+				for _, r2 := range core.Referrers(fa) {
+					if st, isSt := r2.(*ssa.Store); isSt && st.Addr == ssa.Value(fa) {
+						nSt++
+						if sf, ok := core.FieldOfValue(st.Val); ok && sf.Is(pkWire, "Server", "Session") {
+							prevOK = true
+						} else {
+							prevOK, nSt = false, 99
+						}
+					}
+				}
+			}
+			if nSt != 1 {
+				prevOK = false
+			}
+			for _, b := range bl.mc.Parent().Blocks {
+				for _, in := range b.Instrs {
+					if st, isSt := in.(*ssa.Store); isSt {
+						if fr, ok := core.FieldOfAddr(st.Addr); ok && fr.Is(pkWire, "Server", "Session") {
+							v := st.Val
+							if ct, isCT := v.(*ssa.ChangeType); isCT {
+								v = ct.X
+							}
+							if v == ssa.Value(bl.mc) {
+								regOK = true
+							}
+						}
+					}
+				}
+			}
 		}
 		R.Check(prevOK, "C19.R2", fk+":first-is-previous", c.at(first), "the handler that runs first is the previously registered chain, so middlewares run in registration order", "the first callee is bound to the value of Server.Session read before the registration", "cannot establish that the first callee is the previously registered handler: "+why)
 		if regOK {
@@ -831,15 +945,7 @@ func (c *Ctx) c19Terminate() {
 			if !ok {
 				continue
 			}
-			stops := false
-			for _, e := range nilEdges(call, false) {
-				blk := e.to()
-				if r, isRet := blk.Instrs[len(blk.Instrs)-1].(*ssa.Return); isRet {
-					if roots := core.ErrRoots(errOperand(r)); len(roots) == 1 && roots[0] == ssa.Value(call) {
-						stops = true
-					}
-				}
-			}
+			stops := c.stopsOnError(call)
 			R.Check(stops, "C19.R4", "consumeCommands:stops-on-error", c.at(call), "the command loop ends as soon as a command returns a non-nil result", "the non-nil edge returns that error", "the loop does not return on a non-nil command result")
 		}
 	}
